@@ -341,6 +341,22 @@ fn replay(run: &Run, doc: &Value) -> Option<Violation> {
                 judge4(run, &mut t, a, b, got, &ra, &rb, &aa, &ab);
             }
         }
+        Some("reuse-cmp") => {
+            let bound = c["bound"].as_str().unwrap_or("1.0");
+            let pats: Vec<Pattern> = OPS.iter().filter_map(|op| Pattern::new(&format!("p{}{}", op_name(*op), bound)).ok()).collect();
+            if pats.len() == 4 {
+                let mut buf = String::with_capacity(64);
+                for v in [c["previous_content"].as_str(), c["content"].as_str()].into_iter().flatten() {
+                    buf.clear();
+                    buf.push_str("p-");
+                    buf.push_str(v);
+                    let got = [pats[0].matches(&buf), pats[1].matches(&buf), pats[2].matches(&buf), pats[3].matches(&buf)];
+                    if Some(v) == c["content"].as_str() {
+                        judge4(run, &mut t, v, bound, got, &dewey::tokenise(v, LetterWeight::Rank), &dewey::tokenise(bound, LetterWeight::Rank), &dewey::tokenise(v, LetterWeight::AsciiLower), &dewey::tokenise(bound, LetterWeight::AsciiLower));
+                    }
+                }
+            }
+        }
         Some("best") if c["pattern"] == "*" => {
             let n1 = c["pkg1"].as_str().unwrap_or("");
             let n2 = c["pkg2"].as_str().unwrap_or("");
@@ -706,6 +722,7 @@ fn main() {
             let (rb, ab) = (dewey::tokenise(bound, LetterWeight::Rank), dewey::tokenise(bound, LetterWeight::AsciiLower));
             for (len, group) in &by_len {
                 let mut buf = String::with_capacity(len + 8);
+                let mut prev: Option<&String> = None;
                 for v in group.iter().chain(group.iter().rev()) {
                     buf.clear();
                     buf.push_str("p-");
@@ -715,10 +732,17 @@ fn main() {
                     t.evals += 4;
                     t.validated += 4;
                     calls += 1;
+                    let before = t.violations.len();
                     match guard(|| [pats[0].matches(&buf), pats[1].matches(&buf), pats[2].matches(&buf), pats[3].matches(&buf)]) {
                         Ok(got) => judge4(&run, &mut t, v, bound, got, &dewey::tokenise(v, LetterWeight::Rank), &rb, &dewey::tokenise(v, LetterWeight::AsciiLower), &ab),
                         Err(m) => t.violation(Violation::new("cmp", cmp_case(v, bound, Op::Gt), json!("a verdict"), json!(format!("panic: {}", m)), "matching panicked")),
                     }
+                    // recorded with the buffer's previous content, so that the replay makes the same two calls
+                    for viol in t.violations[before..].iter_mut() {
+                        viol.kind = "reuse-cmp".to_string();
+                        viol.case = json!({"bound": bound, "previous_content": prev, "content": v, "note": "one name buffer, rewritten in place between the two matches"});
+                    }
+                    prev = Some(*v);
                 }
             }
         }
